@@ -138,3 +138,49 @@ Proof.
   - destruct (handler_done s) eqn:Ed; cbn [negb] in Hq; [|discriminate].
     destruct (H1 eq_refl) as (A & B & _). repeat split; assumption.
 Qed.
+
+(* ---- several streams at once (C15): both directions, concurrently bridged connections ---- *)
+Lemma all_bytes_snoc st bs : Forall (fun b => b < 256) bs ->
+  all_bytes (fst st, snd st ++ [conn_write bs]) = all_bytes st ++ bs /\
+  (forallb valid (snd st) = true -> forallb valid (snd st ++ [conn_write bs]) = true).
+Proof.
+  intros H. destruct (write_then_payload bs H) as [P V]. unfold all_bytes. cbn [fst snd]. split.
+  - rewrite map_app, concat_app. cbn [map concat]. rewrite P, app_nil_r, app_assoc. reflexivity.
+  - intros HV. rewrite forallb_app, HV. cbn [forallb]. rewrite V. reflexivity.
+Qed.
+
+Lemma mtrace_inv es : forall m, Forall ev_ok es -> (forall k, forallb valid (snd (m k)) = true) ->
+  forall k, exists rest, got k (mtrace m es) ++ rest = all_bytes (m k) ++ written k es.
+Proof.
+  induction es as [|e es IH]; intros m HE HV k.
+  - exists (all_bytes (m k)). cbn [mtrace got written]. rewrite app_nil_r. reflexivity.
+  - inversion HE as [|? ? He HE']; subst. destruct e as [j bs|j n]; cbn [mtrace mstep ev_ok] in *.
+    + destruct (all_bytes_snoc (m j) bs He) as [A V].
+      set (m' := upd m j (fst (m j), snd (m j) ++ [conn_write bs])).
+      assert (HV' : forall k0, forallb valid (snd (m' k0)) = true).
+      { intros k0. unfold m', upd. destruct (k0 =? j) eqn:E; [apply V; apply HV|apply HV]. }
+      destruct (IH m' HE' HV' k) as [rest Hr]. exists rest. cbn [app written]. rewrite Hr.
+      unfold m', upd. rewrite (Nat.eqb_sym j k). destruct (k =? j) eqn:E.
+      * apply Nat.eqb_eq in E. subst j. rewrite A, <- app_assoc. reflexivity.
+      * reflexivity.
+    + pose proof (conn_read_conserves (m j) n He (HV j)) as C.
+      destruct (conn_read (m j) n) as [[bs| |] st'] eqn:Er.
+      * destruct C as (_ & C2 & C3).
+        set (m' := upd m j st').
+        assert (HV' : forall k0, forallb valid (snd (m' k0)) = true).
+        { intros k0. unfold m', upd. destruct (k0 =? j) eqn:E; [exact C3|apply HV]. }
+        destruct (IH m' HE' HV' k) as [rest Hr]. exists rest. cbn [app got written].
+        rewrite (Nat.eqb_sym j k). fold m'. destruct (k =? j) eqn:E.
+        -- apply Nat.eqb_eq in E. subst j.
+           assert (Em : m' k = st') by (unfold m', upd; rewrite Nat.eqb_refl; reflexivity).
+           rewrite Em in Hr. rewrite <- app_assoc, Hr, app_assoc, C2. reflexivity.
+        -- assert (Em : m' k = m k) by (unfold m', upd; rewrite E; reflexivity).
+           rewrite Em in Hr. exact Hr.
+      * destruct C.
+      * destruct (IH m HE' HV k) as [rest Hr]. exists rest. cbn [app written]. exact Hr.
+Qed.
+
+Theorem streams_independent es k : Forall ev_ok es -> exists rest, got k (mtrace m_init es) ++ rest = written k es.
+Proof.
+  intros HE. destruct (mtrace_inv es m_init HE (fun _ => eq_refl) k) as [rest Hr]. exists rest. exact Hr.
+Qed.
